@@ -23,9 +23,12 @@ import (
 	authtypes "github.com/cosmos/cosmos-sdk/x/auth/types"
 	banktypes "github.com/cosmos/cosmos-sdk/x/bank/types"
 	govtypes "github.com/cosmos/cosmos-sdk/x/gov/types"
+	"github.com/cosmos/cosmos-sdk/x/upgrade"
+	upgradetypes "github.com/cosmos/cosmos-sdk/x/upgrade/types"
 
 	"github.com/haqq-network/haqq/app"
 	evmante "github.com/haqq-network/haqq/app/ante/evm"
+	fmupgrade "github.com/haqq-network/haqq/app/upgrades/v1.8.2"
 	"github.com/haqq-network/haqq/utils"
 	"github.com/haqq-network/haqq/x/feemarket"
 	feemarkettypes "github.com/haqq-network/haqq/x/feemarket/types"
@@ -58,6 +61,13 @@ import (
 //                      ExportAppStateAndValidators; a FRESH application on a new database runs InitChain
 //                      with the exported fee market genesis, consensus parameters and height; the
 //                      scenario continues on that application
+//       upgrade        (after EndBlock, before Commit) a software-upgrade plan becomes due for the next
+//                      height: the module's store is put into the layout of consensus version args.from
+//                      (v3: the parameters live in the x/params subspace, not in the module store), the
+//                      module version map says args.from and a plan with a registered handler is scheduled.
+//                      The next begin_block runs the x/upgrade BeginBlocker (which runs the registered
+//                      in-place migrations through the application's module manager) before the fee
+//                      market's BeginBlock, as the application's begin-blocker order does.
 //     args.commit = false is the ABCI order: InitChain's writes (persistent AND transient stores) stay
 //     uncommitted until the first block commits (phase "imported"); true commits right after the
 //     initialisation, as test set-ups do.
@@ -78,6 +88,7 @@ type fmCfg struct {
 	Bgw     string   `json:"bgw"`
 	MaxGas  string   `json:"maxGas"`
 	Params  fmParams `json:"params"`
+	Abci    bool     `json:"abci,omitempty"` // blocks through the application's ABCI interface (feemarket_abci.go)
 }
 
 type fmStep struct {
@@ -173,6 +184,12 @@ type fmEnv struct {
 	phase     string
 	height    int64
 	blkMaxGas string
+	// ABCI-level sequences (feemarket_abci.go)
+	abci       bool
+	hdr        tmproto.Header
+	used       uint64 // gas used the DeliverTx responses of the running block report
+	key, other Key
+	evmChainID uint64
 }
 
 // fmGenesis is the genesis app.Setup builds (default module genesis, one bonded validator, one
@@ -303,6 +320,10 @@ func (f *fmEnv) reset(c fmCfg) {
 	}
 	k.SetBlockGasWanted(f.ctx, fmU64(c.Bgw))
 	f.setMaxGas(c.MaxGas)
+	// no upgrade of an earlier scenario is pending or remembered as done
+	f.app.UpgradeKeeper.ClearUpgradePlan(f.ctx)
+	f.ctx.KVStore(f.app.GetKey(upgradetypes.StoreKey)).Delete(append([]byte{upgradetypes.DoneByte}, []byte(fmupgrade.UpgradeName)...))
+	f.app.UpgradeKeeper.SetModuleVersionMap(f.ctx, map[string]uint64{feemarkettypes.ModuleName: feemarket.AppModuleBasic{}.ConsensusVersion()})
 	f.commit()
 	f.phase = "idle"
 	f.view()
@@ -352,6 +373,9 @@ func fmArgStr(a M, k string) string {
 // step executes one abstract action on the real code; returns ok, err and whether the
 // scenario must stop (a panicking BeginBlock halts the chain).
 func (f *fmEnv) step(st *fmStep) (ok bool, errs string, halt bool) {
+	if f.abci {
+		return f.stepAbci(st)
+	}
 	k := &f.app.FeeMarketKeeper
 	switch st.Ev {
 	case "begin_block":
@@ -360,12 +384,19 @@ func (f *fmEnv) step(st *fmStep) (ok bool, errs string, halt bool) {
 		f.branch(h)
 		f.blkMaxGas = f.ctxMaxGas()
 		f.phase = "open"
-		e := fmRecover(func() { k.BeginBlock(f.ctx, abci.RequestBeginBlock{Header: f.header(h)}) })
+		e := fmRecover(func() {
+			// the application's begin-blocker order: x/upgrade (a due plan runs the in-place store
+			// migrations) before x/feemarket
+			req := abci.RequestBeginBlock{Header: f.header(h)}
+			upgrade.BeginBlocker(&f.app.UpgradeKeeper, f.ctx, req)
+			k.BeginBlock(f.ctx, req)
+		})
 		// baseapp resets the block gas meter after the begin blockers
 		f.ctx = f.ctx.WithBlockGasMeter(f.blockGasMeter(f.ctx))
 		return e == "", e, e != ""
 	case "ante":
 		gas := fmU64(fmArgStr(st.Args, "gas"))
+		st.Args = M{"gas": fmArgStr(st.Args, "gas"), "kind": "decorator"} // keeper level: the decorator alone
 		b := f.txCfg.NewTxBuilder()
 		b.SetGasLimit(gas)
 		tx := b.GetTx()
@@ -416,6 +447,13 @@ func (f *fmEnv) step(st *fmStep) (ok bool, errs string, halt bool) {
 	case "set_max_gas":
 		f.setMaxGas(fmArgStr(st.Args, "maxGas"))
 		return true, "", false
+	case "upgrade":
+		var err error
+		e := fmRecover(func() { err = fmScheduleUpgrade(f.app, f.ctx, uint64(st.Args["from"].(float64)), f.height+1) })
+		if e != "" {
+			return false, e, false
+		}
+		return err == nil, errStr(err), false
 	case "restart":
 		e := fmRecover(func() { f.attach(openApp(f.db)) })
 		f.view()
@@ -446,6 +484,21 @@ func (f *fmEnv) step(st *fmStep) (ok bool, errs string, halt bool) {
 		return true, "", false
 	}
 	panic("unknown feemarket step " + st.Ev)
+}
+
+// fmScheduleUpgrade: the chain as it is right before a software upgrade that migrates x/feemarket from
+// consensus version `from`: the store in that version's layout, the version map, a due plan.
+func fmScheduleUpgrade(a *app.Haqq, ctx sdk.Context, from uint64, height int64) error {
+	if from != 3 {
+		return fmt.Errorf("no store layout known for x/feemarket consensus version %d", from)
+	}
+	// v3: the parameters (the base fee is one of them) are managed by x/params
+	p := a.FeeMarketKeeper.GetParams(ctx)
+	ss := a.GetSubspace(feemarkettypes.ModuleName)
+	ss.SetParamSet(ctx, &p)
+	ctx.KVStore(a.GetKey(feemarkettypes.StoreKey)).Delete(feemarkettypes.ParamsKey)
+	a.UpgradeKeeper.SetModuleVersionMap(ctx, map[string]uint64{feemarkettypes.ModuleName: from})
+	return a.UpgradeKeeper.ScheduleUpgrade(ctx, upgradetypes.Plan{Name: fmupgrade.UpgradeName, Height: height})
 }
 
 // calc evaluates the real CalculateBaseFee for one parameter row and every g of the row.
@@ -710,6 +763,7 @@ func fmRandParams(r *rand.Rand, base *big.Int) fmParams {
 // randomScenario runs one seeded random block sequence; steps are generated while running
 // (gas relative to the current limits) and logged with their arguments.
 func (f *fmEnv) randomScenario(r *rand.Rand, blocks int, nodeOps int, emit func(st fmStep) bool) {
+	upgraded := false
 	for b := 1; b <= blocks; b++ {
 		if !emit(fmStep{"begin_block", M{"height": float64(b)}}) {
 			return
@@ -783,6 +837,13 @@ func (f *fmEnv) randomScenario(r *rand.Rand, blocks int, nodeOps int, emit func(
 		if !emit(fmStep{"end_block", M{"used": used.String()}}) {
 			return
 		}
+		// a software upgrade becomes due for the next block (once per sequence: a plan name completes once)
+		if !upgraded && b < blocks && r.Intn(1000) < nodeOps/2 {
+			upgraded = true
+			if !emit(fmStep{"upgrade", M{"from": float64(3)}}) {
+				return
+			}
+		}
 		if !emit(fmStep{"commit", M{"height": float64(b)}}) {
 			return
 		}
@@ -816,6 +877,7 @@ func feemarketMain(args []string) error {
 	random := fs.Int("random", 0, "number of random block sequences")
 	blocks := fs.Int("blocks", 8, "blocks per random sequence")
 	nodeOps := fs.Int("node-ops", 250, "random sequences: per mille of block boundaries with a node operation (restart, reinit, export_import)")
+	nabci := fs.Int("abci", 0, "number of random block sequences at the ABCI level (real transactions of every kind through DeliverTx)")
 	randCalc := fs.Int("random-calc", 0, "number of random calc rows")
 	seed := fs.Int64("seed", 1, "seed")
 	out := fs.String("out", "trace.ndjson", "trace output")
@@ -890,14 +952,19 @@ func feemarketMain(args []string) error {
 	nseq := 0
 	var seq *fmEnv
 	runSeq := func(src string, cfg fmCfg, drive func(f *fmEnv, emit func(st fmStep) bool)) {
-		if seq == nil {
-			seq = fmNewEnv()
+		var f *fmEnv
+		if cfg.Abci {
+			f = fmNewAbciEnv(cfg) // a fresh application, initialised from the sequence's genesis
+		} else {
+			if seq == nil {
+				seq = fmNewEnv()
+			}
+			f = seq
+			if f.phase != "idle" { // a halted or unfinished scenario left a block open: drop its branch
+				f.phase = "idle"
+			}
+			f.reset(cfg)
 		}
-		f := seq
-		if f.phase != "idle" { // a halted or unfinished scenario left a block open: drop its branch
-			f.phase = "idle"
-		}
-		f.reset(cfg)
 		scn++
 		nseq++
 		tw.Emit(M{"ev": "reset", "scn": scn, "src": src, "cfg": cfg, "post": f.project()})
@@ -931,6 +998,10 @@ func feemarketMain(args []string) error {
 			cfg.Bgw = fmt.Sprint(r.Int63n(60000000))
 		}
 		runSeq("random", cfg, func(f *fmEnv, emit func(st fmStep) bool) { f.randomScenario(r, *blocks, *nodeOps, emit) })
+	}
+	for i := 0; i < *nabci; i++ {
+		r := rand.New(rand.NewSource(*seed*1000033 + int64(i)))
+		runSeq("random-abci", fmaRandCfg(r), func(f *fmEnv, emit func(st fmStep) bool) { f.randomAbci(r, *blocks, *nodeOps, emit) })
 	}
 	fmt.Printf("feemarket: scenarios=%d lines=%d calc_rows=%d calc_evaluations=%d sequences=%d\n", scn, tw.N, ncalc, nevals, nseq)
 	return nil
